@@ -105,10 +105,12 @@ CHECKS = {
     note=TB),
  "C15": dict(
     category="translation_validation",
-    text="rooc's own labelling logic (raw microlp status/error -> returned label or error) is modelled as a decision table in Coq with the theorem wrap_never_mislabels "
-         "(optimal only if proven within the gap, feasible for an incumbent, an error when interrupted before any feasible point or when options are invalid) and tied to the code by comparing "
-         "every observed (raw status via guarded hook, returned label) pair over models x 40 (time limit, MIP gap) settings incl. 0, 1us, negative/NaN/infinite gaps. Every returned point goes through the "
-         "Coq-verified feasibility checker; an Optimal label is compared with the optimum certified by exhaustive enumeration inside Coq. The genuine defect F10 (status ignored) was repaired.",
+    text="rooc's own labelling logic (raw microlp status/error, requested gap, reported value, proven bound -> returned label or error) is modelled in Coq with the theorems wrap_never_mislabels "
+         "(optimal only if proven and, under a positive gap, the reported value - constant term included - is within that gap of the proven bound; feasible for an incumbent; an error when interrupted before any "
+         "feasible point or when options are invalid) and optimal_label_within_gap_of_optimum (hence within the gap of the TRUE optimum whenever bound and value bracket it, which is checked against the certified optimum "
+         "on every run). Tied to the code by comparing every observed (raw status and bound via guarded hooks, gap, value, returned label) tuple over models x 40 (time limit, MIP gap) settings incl. 0, 1us, "
+         "negative/NaN/infinite gaps. Every returned point goes through the Coq-verified feasibility checker; an Optimal label is compared with the optimum certified by exhaustive enumeration inside Coq. "
+         "Genuine defects F10 (status ignored) and F47 (gap measured without the objective's constant term) were repaired.",
     design_ref="DESIGN.md section 4 / C15",
     technique="Coq decision-table model + theorem, tied by (raw status, label) correspondence through a hook; per-output validation with verified checkers",
     note="Trusted: Coq kernel; hook milp_verif_hooks; printers and Python comparison. Which raw status a given wall-clock limit produces is runtime behaviour the model cannot exhibit (only 0 and generous limits are deterministic)."),
